@@ -27,7 +27,7 @@ def main(tier, seed, replay=None):
         rep.evaluations = r.get("cases", 1)
         return rep.finish(min_nontrivial=0)
     witnesses.replay_for(rep, "C17")
-    per = 6000 if tier == "quick" else 30000
+    per = 3500 if tier == "quick" else 20000
     res, distinct = inproc.run_shards(rep, "c17", seed, per, flags, R.budget(tier, 30, 300), "C17")
     rep.sigs = set(range(distinct))
     rep.extra["trigger_flags_off"] = flags
